@@ -28,7 +28,7 @@ TRUSTED_BASE = [
 ASSUMPTIONS = ["touch mutations move the modification time by >= 1 s (smaller moves that round to the same second are deliberately ignored by the tool)",
                "structure check (-s, PIL) not exercised"]
 RULE = ("trees of 1-6 files with csv-hostile printable names (|, quotes, spaces, CJK, accents, leading dot, nested dirs), mutation sets over "
-        "{bit flip with size+mtime restored at offsets incl. 0/65535/65536/last, append, truncate, delete, rename, touch}, option combinations "
+        "{bit flip with size+mtime restored at offsets incl. 0/65535/65536/last, md5-colliding twin (same md5, size and time), append, truncate, delete, rename, touch}, option combinations "
         "(-m, --skip_missing, --skip_hash), folder and single-file input, original and relocated (copy2) root; non-trivial = at least one "
         "mutation; distinct = distinct request")
 
@@ -88,7 +88,17 @@ def run(oc, tier, seed, model_available, escalate):
         if rc != "0":
             oc.violations.append({"input": {"tree": sorted(tree)}, "what": "generation failed: %s" % rc})
             continue
-        t2, touched, kinds = mutate(rng, tree) if i % 5 else (dict(tree), set(), [])
+        if i % 11 == 3:
+            # a file replaced by its md5-colliding twin (Wang et al.): same md5, same size, time restored - only the sha1 tells
+            # (the "one of the hashes failed but not the other" rule)
+            suffix = bytes(rng.randrange(256) for _ in range(rng.choice([0, 1, 40])))
+            tree["twin.bin"] = (ru.MD5_TWINS[0] + suffix, ru.BASE_NS)
+            ru.write_tree(root, {"twin.bin": tree["twin.bin"]})
+            rc, _ = ru.run_main(["-i", root, "-d", db, "-g", "-f", "--silent"])
+            t2, touched, kinds = dict(tree), {"twin.bin"}, ["md5-twin"]
+            t2["twin.bin"] = (ru.MD5_TWINS[1] + suffix, ru.BASE_NS)
+        else:
+            t2, touched, kinds = mutate(rng, tree) if i % 5 else (dict(tree), set(), [])
         relocated = rng.random() < 0.4
         chk_root = os.path.join(d, "moved here") if relocated else root
         if relocated:
